@@ -247,13 +247,22 @@ async fn serve<S: AsyncRead + AsyncWrite + Unpin>(mut s: S, k: usize, st: Arc<Mu
                         Some(PingFault::Wrong) => out.extend(bulk("not-the-value")),
                         Some(PingFault::Lookalike(k)) => {
                             let v = val.clone().unwrap_or_default();
-                            let l = match k % 5 {
+                            let n: Option<u128> = v.parse().ok();
+                            let l = match k % 10 {
                                 0 => format!("0{}", v),
                                 1 => format!("+{}", v),
                                 2 => format!("{} ", v),
                                 3 => format!(" {}", v),
-                                _ => format!("{}.0", v),
+                                4 => format!("{}.0", v),
+                                // numeric neighbours: one more, one less, ten times, far beyond any counter
+                                5 => n.map(|n| (n + 1).to_string()).unwrap_or_else(|| format!("{}1", v)),
+                                6 => n.map(|n| if n == 0 { u64::MAX.to_string() } else { (n - 1).to_string() }).unwrap_or_else(|| format!("{}0", v)),
+                                7 => format!("{}0", v),
+                                8 => "340282366920938463463374607431768211455".to_string(),
+                                _ => format!("-{}", v),
                             };
+                            // (a counter at 0 makes "one less" wrap and "-0" / "00" stay different strings)
+                            let l = if l == v { format!("{}x", v) } else { l };
                             out.extend(bulk(&l))
                         }
                         Some(PingFault::Newest) => {
